@@ -8,7 +8,11 @@ namespace GoLevel.Locks
 open CompErr
 
 /-- the code's configuration with `compactionError` changed by `f` -/
-def Cfg.withM (f : MCfg → MCfg) : Cfg := { Cfg.repaired with m := f .asCoded }
+def Cfg.withM (f : MCfg → MCfg) : Cfg := { Cfg.repaired with m := f (.asCoded true) }
+
+/-- the configuration as found (the machine gives the lock back on `closeC`, `Close` takes it with a plain send)
+with `compactionError` changed by `f` -/
+def Cfg.withMFound (f : MCfg → MCfg) : Cfg := { Cfg.asFound with m := f (.asCoded false) }
 
 /-! ### `haserr` without `err == ErrReadOnly` in its persistent case (the seeded change) -/
 
@@ -176,10 +180,14 @@ theorem runNoHasperrErr : Steps cfgNoHasperrErr (init 3) stNoHasperrErr := by
   have h := h.step (Step.bgAck _ true (some 0) rfl)
   exact h
 
-/-! ### `hasperr` without `case <-db.closeC`, or without the give-back in it -/
+/-! ### `hasperr` without `case <-db.closeC`, or without `close(db.compLockedC)` in it (as found: without the
+give-back in it), or `Close` without the `compLockedC` arm -/
 
 def cfgNoHasperrClose : Cfg := Cfg.withM (fun m => { m with hasperrClose := false })
-def cfgNoGiveBack : Cfg := Cfg.withM (fun m => { m with hasperrGivesBack := false })
+def cfgNoGiveBack : Cfg := Cfg.withMFound (fun m => { m with hasperrGivesBack := false })
+def cfgNoKeep : Cfg := Cfg.withM (fun m => { m with hasperrKeepsLock := false })
+/-- the machine keeps the lock and closes `compLockedC`, but `Close` still does the plain send -/
+def cfgNoCloseSel : Cfg := { Cfg.repaired with closeSel := false }
 
 /-- `SetReadOnly` returned nil; `Close` (thread 1) has closed `closeC`, both compaction goroutines have exited -/
 def stROClose (e : Eh) : St :=
@@ -198,6 +206,13 @@ theorem runNoHasperrClose : Steps cfgNoHasperrClose (init 2) (stROClose .hasperr
 
 theorem runNoGiveBack : Steps cfgNoGiveBack (init 2) (stROClose .exited) :=
   (show Steps cfgNoGiveBack (init 2) (stROClose .hasperr) by run_ro_close cfgNoGiveBack).step (Step.ehClose _ rfl rfl)
+
+theorem runNoKeep : Steps cfgNoKeep (init 2) (stROClose .exited) :=
+  (show Steps cfgNoKeep (init 2) (stROClose .hasperr) by run_ro_close cfgNoKeep).step (Step.ehClose _ rfl rfl)
+
+/-- the machine is in the `closeC` case (it closes `compLockedC` and returns: nothing `Close`'s plain send could see) -/
+theorem runNoCloseSel : Steps cfgNoCloseSel (init 2) (stROClose .closing) :=
+  (show Steps cfgNoCloseSel (init 2) (stROClose .hasperr) by run_ro_close cfgNoCloseSel).step (Step.ehClose _ rfl rfl)
 
 /-! ### `hasperr` without `case db.writeLockC <- struct{}{}` -/
 
@@ -258,7 +273,7 @@ theorem runLost : Steps Cfg.before832 (init 4) stLost := by
   have h := h.step (Step.startClose _ 2 rfl)
   have h := h.step (Step.clCheckTr _ 2 rfl)
   have h := h.step (Step.ehClose _ rfl rfl)
-  have h := h.step (Step.ehTake _ rfl rfl)
+  have h := h.step (Step.ehTake _ rfl rfl rfl)
   have h := h.step (Step.clAcq _ 2 rfl rfl)
   have h := h.step (Step.srClosed _ 1 rfl rfl)
   exact h
@@ -329,14 +344,13 @@ theorem runRetryRO : Steps Cfg.repaired (init 3) stRetryRO := by
   have h := h.step (Step.startClose _ 2 rfl)
   have h := h.step (Step.clCheckTr _ 2 rfl)
   have h := h.step (Step.ehClose _ rfl rfl)
-  have h := h.step (Step.ehTake _ rfl rfl)
-  have h := h.step (Step.clAcq _ 2 rfl rfl)
+  have h := h.step (Step.clAcqKept _ 2 rfl rfl rfl rfl)
   have h := h.step (Step.bgExitIdle _ false rfl rfl)
   have h := h.step (Step.bgExitParked _ rfl rfl)
   have h := h.step (Step.clWait _ 2 rfl rfl rfl)
   exact h
 
-/-! ### the code's configuration: a write slips through a read-only DB while it is being closed -/
+/-! ### the configuration as found: a write slips through a read-only DB while it is being closed -/
 
 /-- `SetReadOnly` (thread 0) returned nil; a `Put` (thread 1) started afterwards and is at its `select`; `Close`
 (thread 2) closed `closeC`, `compactionError` gave its token back and exited — before `Close` takes the lock the
@@ -346,7 +360,53 @@ def stROWrite : St :=
   { ws := [.ret true, .ret true, .clAcq], tok := false, cwl := true, ro := true, ehErr := .readonly, eh := .exited,
     closed := true }
 
-theorem runROWrite : Steps Cfg.repaired (init 3) stROWrite := by
+theorem runROWrite : Steps Cfg.asFound (init 3) stROWrite := by
+  have h := Steps.refl (cfg := Cfg.asFound) (init 3)
+  have h := h.step (Step.startSR _ 0 rfl rfl)
+  have h := h.step (Step.selTok _ 0 .srSel .srSet rfl rfl rfl)
+  have h := h.step (Step.srSend _ 0 rfl rfl)
+  have h := h.step (Step.startPut _ 1 rfl)
+  have h := h.step (Step.startClose _ 2 rfl)
+  have h := h.step (Step.clCheckTr _ 2 rfl)
+  have h := h.step (Step.ehClose _ rfl rfl)
+  have h := h.step (Step.ehTake _ rfl rfl rfl)
+  have h := h.step (Step.selTok _ 1 .putSel .putFlush rfl rfl rfl)
+  have h := h.step (Step.putNoWait _ 1 rfl)
+  have h := h.step (Step.putJournalOk _ 1 rfl)
+  have h := h.step (Step.putUnlock _ 1 true rfl)
+  exact h
+
+/-- the state of `runROWrite` just before the write takes the lock: `compactionError` has given its token back and
+exited, `writeLockC` is empty, the `Put` (thread 1) and `Close` (thread 2) both want it -/
+def stROGap : St :=
+  { ws := [.ret true, .putSel, .clAcq], tok := false, cwl := true, ro := true, ehErr := .readonly, eh := .exited,
+    closed := true }
+
+theorem runROGap : Steps Cfg.asFound (init 3) stROGap := by
+  have h := Steps.refl (cfg := Cfg.asFound) (init 3)
+  have h := h.step (Step.startSR _ 0 rfl rfl)
+  have h := h.step (Step.selTok _ 0 .srSel .srSet rfl rfl rfl)
+  have h := h.step (Step.srSend _ 0 rfl rfl)
+  have h := h.step (Step.startPut _ 1 rfl)
+  have h := h.step (Step.startClose _ 2 rfl)
+  have h := h.step (Step.clCheckTr _ 2 rfl)
+  have h := h.step (Step.ehClose _ rfl rfl)
+  have h := h.step (Step.ehTake _ rfl rfl rfl)
+  exact h
+
+theorem stepROGap : Step Cfg.asFound false stROGap { stROGap with ws := [.ret true, .putFlush, .clAcq], tok := true } :=
+  Step.selTok stROGap 1 .putSel .putFlush rfl rfl rfl
+
+/-! ### the code's configuration: the same schedule — the lock never leaves `writeLockC` -/
+
+/-- `SetReadOnly` (thread 0) returned nil; a `Put` (thread 1) started afterwards and is at its `select`; `Close`
+(thread 2) closed `closeC`; `compactionError` keeps the lock and closes `compLockedC`, `Close` takes that arm: the
+`Put` can only return (`ErrClosed` here), `Close` returns -/
+def stROKept : St :=
+  { ws := [.ret true, .ret false, .ret true], tok := true, closeTok := true, cwl := true, ro := true,
+    ehErr := .readonly, eh := .exited, closed := true, mc := .exited, tc := .exited }
+
+theorem runROKept : Steps Cfg.repaired (init 3) stROKept := by
   have h := Steps.refl (cfg := Cfg.repaired) (init 3)
   have h := h.step (Step.startSR _ 0 rfl rfl)
   have h := h.step (Step.selTok _ 0 .srSel .srSet rfl rfl rfl)
@@ -355,11 +415,11 @@ theorem runROWrite : Steps Cfg.repaired (init 3) stROWrite := by
   have h := h.step (Step.startClose _ 2 rfl)
   have h := h.step (Step.clCheckTr _ 2 rfl)
   have h := h.step (Step.ehClose _ rfl rfl)
-  have h := h.step (Step.ehTake _ rfl rfl)
-  have h := h.step (Step.selTok _ 1 .putSel .putFlush rfl rfl rfl)
-  have h := h.step (Step.putNoWait _ 1 rfl)
-  have h := h.step (Step.putJournalOk _ 1 rfl)
-  have h := h.step (Step.putUnlock _ 1 true rfl)
+  have h := h.step (Step.clAcqKept _ 2 rfl rfl rfl rfl)
+  have h := h.step (Step.selClosed _ 1 .putSel .putFlush rfl rfl rfl)
+  have h := h.step (Step.bgExitIdle _ false rfl rfl)
+  have h := h.step (Step.bgExitIdle _ true rfl rfl)
+  have h := h.step (Step.clWait _ 2 rfl rfl rfl)
   exact h
 
 end GoLevel.Locks
